@@ -277,16 +277,16 @@ class MibCompiler(object):
 
                     mibTrees = self._parser.parse(fileData)
 
-                    parsedFiles.add(fileKey)
-
-                    sourceAnswered = bool(mibTrees) or sourceAnswered
-
                     if not mibTrees:
                         # nothing but white space or comments in there:
                         # as good as not found, keep looking
                         debug.logger & debug.flagCompiler and debug.logger(
                             'no MIB module in %s found at %s' % (mibname, source))
                         continue
+
+                    parsedFiles.add(fileKey)
+
+                    sourceAnswered = True
 
                     brokenMibs = set()
 
